@@ -11,7 +11,8 @@ import sys
 import time
 
 VERIF = os.path.dirname(os.path.dirname(os.path.abspath(__file__)))
-PY = os.path.join(VERIF, '.venv', 'bin', 'python')
+PY = next((p_ for p_ in (os.path.join(VERIF, '.venv', 'bin', 'python'), '/verif/.venv/bin/python')
+           if os.path.exists(p_)), '/verif/.venv/bin/python')
 REPO = os.environ.get('MPSERVICE_REPO', '/repo')
 
 
